@@ -447,6 +447,11 @@ impl<'a> Run<'a> {
 
     /// wait until nothing is owed and the stream stopped growing for `settle`; Err(pending) on timeout
     fn wait_quiet(&mut self, settle: Duration, long: Duration, poll: Duration) -> (bool, Vec<String>, u128) {
+        self.wait_quiet2(settle, long, poll, true)
+    }
+
+    /// `insist` = false: a bounded courtesy wait (settle action), its expiry is not "the long timeout"
+    fn wait_quiet2(&mut self, settle: Duration, long: Duration, poll: Duration, insist: bool) -> (bool, Vec<String>, u128) {
         let t0 = Instant::now();
         let mut last_growth = Instant::now();
         loop {
@@ -467,7 +472,7 @@ impl<'a> Run<'a> {
             let shorten = self.first_timeout.is_some() && !self.sc["no_shorten"].as_bool().unwrap_or(false);
             let long_now = if shorten { long.min(Duration::from_millis(3000)) } else { long };
             if t0.elapsed() >= long_now {
-                if !p.is_empty() && self.first_timeout.is_none() {
+                if !p.is_empty() && self.first_timeout.is_none() && insist {
                     self.first_timeout = Some(p.clone());
                 }
                 return (!p.is_empty(), p, t0.elapsed().as_millis());
@@ -533,7 +538,7 @@ impl<'a> Run<'a> {
             "settle" => {
                 // let what is in flight finish, but do not insist (used before probes in mode B)
                 let cap = Duration::from_millis(a["cap_ms"].as_u64().unwrap_or(1500));
-                let _ = self.wait_quiet(tm.step_settle, cap, tm.poll);
+                let _ = self.wait_quiet2(tm.step_settle, cap, tm.poll, false);
             }
             "burst" => {
                 let items = a["items"].as_array().cloned().unwrap_or_default();
